@@ -102,6 +102,8 @@ def method_case(rng, name, tier_big=False):
     if name == "topsis":
         m["metric"] = rng.choice(TOPSIS_METRICS)
     kw = dict(nmax=14 if tier_big else 8, mmax=6, nmin=2, mmin=1)
+    if name not in ("electre2", "simus", "multimoora"):
+        kw["huge"] = 0.02      # a few problems with 65 .. 300 alternatives
     if name in ("wsm",):
         c = gen.dm_case(rng, omode="allmax", modes=("tiny012", "tiny123", "dyadic", "int", "float", "logfloat"), **kw)
         c["matrix"] = [[abs(x) for x in r] for r in c["matrix"]]
@@ -138,5 +140,39 @@ def method_case(rng, name, tier_big=False):
         m["rank_by"] = rng.choice([1, 2])
     else:
         c = gen.dm_case(rng, **kw)
+    if name in ("wpm", "fmf", "wsm", "ratio") and rng.random() < 0.08:
+        # weights need not be small: hundreds, as when points out of 1000 are distributed
+        k = rng.choice([64.0, 128.0])
+        c["weights"] = [w * k for w in c["weights"]]
+        c["tags"] = list(c["tags"]) + ["large_weights"]
     c["method"] = m
     return c
+
+
+def ladder_case(rng, name, n=None):
+    """A long chain: every alternative beats the next one on every criterion, so that the numbers of alternatives
+    which beat / outrank a given one run through 0 .. n-1 (beyond 255 and 256), rows in random order."""
+    c = method_case(rng, name)
+    n = n or rng.choice([130, 257, 258, 300])
+    m = len(c["objectives"])
+    step = [rng.choice([1.0, 2.0, 0.5]) for _ in range(m)]
+    rows = [[(1.0 + (n - i) * step[j]) if c["objectives"][j] == 1 else (1.0 + i * step[j]) for j in range(m)]
+            for i in range(n)]
+    rng.shuffle(rows)
+    c["matrix"] = rows
+    c["alternatives"] = [f"L{i}" for i in range(n)]
+    c["mode"] = "ladder"
+    c["tags"] = ["ladder"]
+    c.pop("dtypes", None)
+    return c
+
+
+def short_numbers(xs, bits=40):
+    """True when every float is a ratio of two integers of at most `bits` bits (cheap for the exact model)."""
+    for x in xs:
+        if x != x or abs(x) == float("inf"):
+            return False
+        a, b = float(x).as_integer_ratio()
+        if abs(a).bit_length() > bits or b.bit_length() > bits:
+            return False
+    return True
